@@ -436,6 +436,18 @@ def enumerate_paths(body, start=0, stop_at=(), max_visits=2, limit=50000, prune=
                 succs = [tgt] if not body.is_cleanup(tgt) else []
             else:
                 mk = memo_key(body, blocks, v, 0, p)
+                # `x.len() == 0` / `!= 0` is decided by an earlier decision about len(x) (which is_empty(x) also records)
+                if mk is not None and mk[0] == "bin" and mk[1] in ("Eq", "Ne") and isinstance(mk[2], tuple) and mk[2][0] == "pure" and mk[2][1].endswith("::len") \
+                        and mk[3] == ("const", ("int", 0, "usize")) and "0" in t["vals"]:
+                    for (k0, d0) in decisions:
+                        if k0 != mk[2]:
+                            continue
+                        is_zero = True if d0 == ("val", 0) else (False if (d0[0] == "not" and 0 in d0[1]) or (d0[0] == "val" and d0[1] != 0) else None)
+                        if is_zero is None:
+                            continue
+                        truth = is_zero if mk[1] == "Eq" else not is_zero
+                        zt = t["tgts"][t["vals"].index("0")]
+                        succs = [x for x in succs if (x != zt) == truth] if len(set(succs)) > 1 else succs
                 if mk is not None:
                     for (k0, d0) in decisions:
                         if k0 != mk:
@@ -469,6 +481,13 @@ def enumerate_paths(body, start=0, stop_at=(), max_visits=2, limit=50000, prune=
                 some = (not truth) if is_none else truth
                 decisions.append((("discr", mk[2][0]), ("val", 1 if some else 0)))
                 extra_pushed += 1
+            if mk is not None and mk[0] == "bin" and mk[1] in ("Eq", "Ne") and isinstance(mk[2], tuple) and mk[2][0] == "pure" and mk[2][1].endswith("::len") \
+                    and mk[3] == ("const", ("int", 0, "usize")) and "0" in t["vals"]:
+                truth = s != t["tgts"][t["vals"].index("0")]
+                is_zero = truth if mk[1] == "Eq" else not truth
+                decisions.append((mk[2], ("val", 0) if is_zero else ("not", frozenset([0]))))
+                decisions.append((("pure", mk[2][1][:-len("len")] + "is_empty", mk[2][2]), ("val", 1 if is_zero else 0)))
+                extra_pushed += 2
             if mk is not None and mk[0] == "pure" and mk[1].endswith("::is_empty") and "0" in t["vals"]:
                 # is_empty(x) == b  <=>  (len(x) == 0) == b
                 truth = s != t["tgts"][t["vals"].index("0")]
